@@ -127,6 +127,27 @@ func (w *World) feeFor(t *Tx, ops []*BuiltOp) sdk.Coins {
 		m[extraDenom] = extra
 	case FeeLiteral:
 		m = map[string]*big.Int{primary: parseBig(t.Fee.Amt)}
+	case FeeSubset:
+		var feeOps []*BuiltOp
+		for _, o := range ops {
+			if o.IsFeeOp {
+				feeOps = append(feeOps, o)
+			}
+		}
+		mask := parseBig(t.Fee.Amt).Uint64()
+		var sub []*BuiltOp
+		for i, o := range feeOps {
+			if mask&(1<<uint(i%60)) != 0 {
+				sub = append(sub, o)
+			}
+		}
+		if len(sub) == 0 && len(feeOps) > 0 {
+			sub = feeOps[len(feeOps)-1:]
+		}
+		if len(sub) == len(feeOps) && len(feeOps) > 1 {
+			sub = sub[1:]
+		}
+		m = w.ExpectedFees(sub)
 	case FeeFirstModuleOnly:
 		var first []*BuiltOp
 		mod := ""
